@@ -85,6 +85,19 @@ class Interstitial(object):
         if self.NV > 0:
             # invertible if inversion is present
             self.omega_invertible = any(np.allclose(g.cartrot, -np.eye(self.dim)) for g in crys.G)
+            if self.omega_invertible:
+                # ... but only for a connected network: inversion can swap disconnected pieces,
+                # which leaves a symmetric null vector and a singular projected omega
+                comp = list(range(self.N))
+
+                def find(i):
+                    while comp[i] != i: i = comp[i]
+                    return i
+
+                for t in jumpnetwork:
+                    for (i, j), dx in t:
+                        comp[find(i)] = find(j)
+                self.omega_invertible = all(find(i) == find(0) for i in range(self.N))
         if self.omega_invertible:
             # invertible, so just use solve for speed (omega is technically *negative* definite)
             self.bias_solver = lambda omega, b: -solve(-omega, b, assume_a='pos')
